@@ -338,35 +338,71 @@ inductive ConnSt where
   | closed (cfg : Config)      -- closed (`_config` is kept by `_cleanup`, but no request is served any more)
   deriving DecidableEq, Repr, Inhabited
 
-/-- the process: the module-level `DEFAULT_CONFIG` and every connection's own `_config` -/
+/-- `d.update(e)` on a caller's settings dict: keys of `e` replace, the others stay -/
+def mergeOverlay (d e : Overlay) : Overlay :=
+  { allowSafe := upd (e.allowSafe.map some) d.allowSafe
+    allowExposed := upd (e.allowExposed.map some) d.allowExposed
+    allowPublic := upd (e.allowPublic.map some) d.allowPublic
+    allowAll := upd (e.allowAll.map some) d.allowAll
+    allowGet := upd (e.allowGet.map some) d.allowGet
+    allowSet := upd (e.allowSet.map some) d.allowSet
+    allowDel := upd (e.allowDel.map some) d.allowDel
+    exposedPrefix := upd (e.exposedPrefix.map some) d.exposedPrefix
+    safe := upd (e.safe.map some) d.safe
+    allowPickle := upd (e.allowPickle.map some) d.allowPickle
+    importCustomExc := upd (e.importCustomExc.map some) d.importCustomExc
+    instantiateCustomExc := upd (e.instantiateCustomExc.map some) d.instantiateCustomExc
+    instantiateOldstyleExc := upd (e.instantiateOldstyleExc.map some) d.instantiateOldstyleExc }
+
+/-- the process: the module-level `DEFAULT_CONFIG`, the settings-dict OBJECTS the application keeps (and may edit and
+reuse after having passed them to a connection), and every connection's own `_config` -/
 structure World where
   dflt : Config
+  dicts : Nat → Overlay
   conns : Nat → ConnSt
 
-def World.init : World := { dflt := defaultConfig, conns := fun _ => .fresh }
+def World.init : World := { dflt := defaultConfig, dicts := fun _ => {}, conns := fun _ => .fresh }
 
 inductive Event where
-  | open (i : Nat) (ov : Overlay)      -- `Connection(root, channel, config)`
+  | open (i : Nat) (ov : Overlay)      -- `Connection(root, channel, config)` with a literal dict
+  | openWith (i : Nat) (d : Nat)       -- `Connection(root, channel, D)` with the application's dict OBJECT `D = dicts d`
   | slave (i : Nat)                    -- `SlaveService.on_connect(conn_i)`
   | close (i : Nat)                    -- `conn_i.close()`
   | access (i : Nat)                   -- conn i serves any attribute request (decisions read, never write, the config)
+  | editDict (d : Nat) (ov : Overlay)  -- the application edits its dict object `d` (`D.update(ov)`), e.g. after opening with it
+  | setDefault (ov : Overlay)          -- the application edits the module-level defaults (`DEFAULT_CONFIG.update(ov)`)
   deriving DecidableEq, Repr, Inhabited
 
-def Event.conn : Event → Nat
-  | .open i _ => i
-  | .slave i => i
-  | .close i => i
-  | .access i => i
+/-- the connection an event belongs to; edits of application dicts and of the defaults belong to none -/
+def Event.conn : Event → Option Nat
+  | .open i _ => some i
+  | .openWith i _ => some i
+  | .slave i => some i
+  | .close i => some i
+  | .access i => some i
+  | .editDict _ _ => none
+  | .setDefault _ => none
+
+/-- environment events: they decide what connections opened LATER start from -/
+def Event.isEnv : Event → Bool
+  | .editDict _ _ => true
+  | .setDefault _ => true
+  | _ => false
 
 def World.setConn (w : World) (i : Nat) (s : ConnSt) : World :=
   { w with conns := fun k => if k = i then s else w.conns k }
 
-/-- one event.  Events that make no sense for the slot's state (opening an identity twice, on_connect or close of a
-connection that is not live) leave the world unchanged. -/
+/-- one event.  Opening takes a SNAPSHOT: `DEFAULT_CONFIG.copy()` updated with the dict's content at that moment.
+Events that make no sense for the slot's state (opening an identity twice, on_connect or close of a connection that
+is not live) leave the world unchanged. -/
 def step (w : World) : Event → World
   | .open i ov =>
     match w.conns i with
     | .fresh => w.setConn i (.live (applyOverlay w.dflt ov))
+    | _ => w
+  | .openWith i d =>
+    match w.conns i with
+    | .fresh => w.setConn i (.live (applyOverlay w.dflt (w.dicts d)))
     | _ => w
   | .slave i =>
     match w.conns i with
@@ -377,6 +413,8 @@ def step (w : World) : Event → World
     | .live cfg => w.setConn i (.closed cfg)
     | _ => w
   | .access _ => w
+  | .editDict d ov => { w with dicts := fun k => if k = d then mergeOverlay (w.dicts d) ov else w.dicts k }
+  | .setDefault ov => { w with dflt := applyOverlay w.dflt ov }
 
 def runEvents (w : World) : List Event → World
   | [] => w
